@@ -1132,7 +1132,7 @@ int main(int argc, char **argv)
 #endif
   static Watchdog *dog = nullptr;  // never destroyed: its thread is detached
   if (mode == "race")
-    dog = new Watchdog(static_cast<int>(R.opt.param("watchdog_s", R.opt.thorough ? 180 : 60)));
+    dog = new Watchdog(static_cast<int>(R.opt.param("watchdog_s", R.opt.thorough ? 600 : 300)));
   R.run_cases([&](uint64_t i) {
     uint64_t seed = R.case_seed(i);
     if (mode == "race")
